@@ -47,6 +47,13 @@ pub struct Cfg {
     /// Percentage of expressions with many rules (12-67, bracketing 16 / 32 / 64): a sequence
     /// drawn from a pool of 1-4 generated rules, so that the choice budget stays small.
     pub long_pct: u32,
+    /// Percentage of expressions of 2-6 rules drawn (with repetition, under varying operators)
+    /// from a pool of 1-3 generated rules: the same rule twice in a row, `A, A; A`, `A; B; A`.
+    pub repeat_pct: u32,
+    /// Sentences of a *relaxed* grammar (no denotation is claimed): a space may separate the year
+    /// selector from the month/date selector and the remedies for the ambiguous gluings are not
+    /// applied. The real grammar rejects most of them; what it accepts must behave.
+    pub relaxed: bool,
     /// Single dates (`Jan 5 +200 days`) may carry day offsets up to this value (0 = no more than
     /// `max_day_offset`): the date may then fall in the year after / before the one it is
     /// defined on.
@@ -75,6 +82,8 @@ impl Default for Cfg {
             dense: false,
             max_day_offset: 10,
             long_pct: 0,
+            repeat_pct: 0,
+            relaxed: false,
             single_date_max_offset: 0,
             canonical_pct: 0,
             canonical: false,
@@ -980,6 +989,9 @@ fn gen_rule(ch: &mut Choices, cfg: &Cfg, out: &mut String, operator: RuleOperato
                 day.year = gen_year_selector(ch, cfg, out);
             }
             if has_md {
+                if cfg.relaxed && has_year && ch.chance(60) {
+                    out.push(' ');
+                }
                 let mark = out.len();
                 day.monthday = gen_monthday_selector(ch, cfg, out);
                 // AMBIGUITY: a lone year directly followed by a year-less month or date reads
@@ -990,9 +1002,11 @@ fn gen_rule(ch: &mut Choices, cfg: &Cfg, out: &mut String, operator: RuleOperato
                 // followed by a dated month/date would glue the digits of the step and of the
                 // year. Same remedy.
                 let lone_year = !cfg.force_bounded_year
+                    && !cfg.relaxed
                     && matches!(day.year.as_slice(), [YearRange { range, step: 1 }] if range.start() == range.end())
                     && !first_monthday_has_year(&day.monthday[0]);
-                let step_then_digit = out[..mark].ends_with(|c: char| c.is_ascii_digit())
+                let step_then_digit = !cfg.relaxed
+                    && out[..mark].ends_with(|c: char| c.is_ascii_digit())
                     && out[..mark].contains('/')
                     && day.year.last().is_some_and(|yr| out[..mark].rsplit(',').next().is_some_and(|t| t.contains('/')) && yr.step >= 1)
                     && first_monthday_has_year(&day.monthday[0]);
@@ -1115,7 +1129,10 @@ fn gen_rule(ch: &mut Choices, cfg: &Cfg, out: &mut String, operator: RuleOperato
 /// Generate an expression and its text.
 pub fn gen_expr(ch: &mut Choices, cfg: &Cfg) -> (OpeningHoursExpression, String) {
     if cfg.long_pct > 0 && ch.chance(cfg.long_pct) {
-        return gen_long_expr(ch, cfg);
+        return gen_long_expr(ch, cfg, false);
+    }
+    if cfg.repeat_pct > 0 && ch.chance(cfg.repeat_pct) {
+        return gen_long_expr(ch, cfg, true);
     }
     let mut out = String::new();
     let n = 1 + ch.draw(cfg.max_rules);
@@ -1164,8 +1181,8 @@ pub fn gen_expr(ch: &mut Choices, cfg: &Cfg) -> (OpeningHoursExpression, String)
 }
 
 /// An expression of many rules: a sequence over a small pool of generated rules.
-fn gen_long_expr(ch: &mut Choices, cfg: &Cfg) -> (OpeningHoursExpression, String) {
-    let m = 1 + ch.draw(4) as usize;
+fn gen_long_expr(ch: &mut Choices, cfg: &Cfg, short: bool) -> (OpeningHoursExpression, String) {
+    let m = 1 + ch.draw(if short { 3 } else { 4 }) as usize;
     let pool: Vec<(GenRule, String)> = (0..m)
         .map(|_| {
             let mut text = String::new();
@@ -1173,7 +1190,7 @@ fn gen_long_expr(ch: &mut Choices, cfg: &Cfg) -> (OpeningHoursExpression, String
             (g, text)
         })
         .collect();
-    let n = [12u32, 15, 16, 17, 18, 24, 31, 32, 33, 48, 63, 64][ch.draw(12) as usize] + ch.draw(4);
+    let n = if short { 2 + ch.draw(5) } else { [12u32, 15, 16, 17, 18, 24, 31, 32, 33, 48, 63, 64][ch.draw(12) as usize] + ch.draw(4) };
     let mut out = String::new();
     let mut rules: Vec<RuleSequence> = Vec::new();
     let mut prev_ends_with_monthday = false;
@@ -1182,7 +1199,7 @@ fn gen_long_expr(ch: &mut Choices, cfg: &Cfg) -> (OpeningHoursExpression, String
         let mut operator = if i == 0 {
             RuleOperator::Normal
         } else {
-            match ch.weighted(&[70, 25, 5]) {
+            match ch.weighted(&if short { [45, 40, 15] } else { [70, 25, 5] }) {
                 0 => RuleOperator::Normal,
                 1 => RuleOperator::Additional,
                 _ => RuleOperator::Fallback,
@@ -1216,7 +1233,7 @@ fn gen_long_expr(ch: &mut Choices, cfg: &Cfg) -> (OpeningHoursExpression, String
 pub fn gen_rare_expr(ch: &mut Choices, year_hint: i32) -> String {
     fn rule(ch: &mut Choices, year_hint: i32) -> String {
         let wd = wday_str(ch.pick(&WDAYS));
-        let time = ch.pick(&["", "", " 10:00-12:00", " 20:00-26:00", " 00:00-24:00", " sunrise-sunset", " 00:00-48:00", " 00:00-30:00", " 24:00-48:00", " 12:00-12:00"]);
+        let time = ch.pick(&["", "", " 10:00-12:00", " 20:00-26:00", " 00:00-24:00", " sunrise-sunset", " 00:00-48:00", " 00:00-30:00", " 24:00-48:00", " 12:00-12:00", " 00:00-24:00,12:00-48:00", " 00:00-24:00,22:00-26:00", " 24:00-26:00"]);
         let near_year = (year_hint + ch.int(0, 3) as i32).clamp(1900, 9999);
         let edge = |ch: &mut Choices| -> String {
             let date = if ch.chance(50) { format!("Dec {}", 20 + ch.draw(12)) } else { format!("Jan {}", 1 + ch.draw(10)) };
